@@ -2227,8 +2227,51 @@ class Interp:
         return self._suspend_expr(expr, expr.value, 'await', sts, fr, raised)
 
     def ex_YieldFrom(self, expr, sts, fr, raised):
+        chosen = self._delegate_chooser(expr, fr)
+        if chosen is not None:
+            # `yield from self._steps()` with a plain private method that only *picks* what
+            # to delegate to: run it in place, then delegate to what it returned
+            call, callee = chosen
+            for arg in call.args:
+                sts = self.ev(arg, sts, fr, raised)
+            out = []
+            for st in sts:
+                for res, s in self._inline_helper(call, call, 'call', callee, st, fr):
+                    if res[0] == 'raise':
+                        raised.append((res, s))
+                    elif res[0] == 'return' and res[1] is not None:
+                        inner = DynFrame(Frame(callee.fn, callee.recv), depth=fr.depth,
+                                         helper_depth=fr.helper_depth + 1)
+                        out.extend(self._suspend_expr(expr, res[1], 'yield from', [s],
+                                                      inner, raised))
+                    else:
+                        raise AnalysisError('%s delegates to nothing at %s:%d' % (
+                            callee, fr.fn.module.relpath, expr.lineno))
+            return out
         sts = self.ev(expr.value, sts, fr, raised)
         return self._suspend_expr(expr, expr.value, 'yield from', sts, fr, raised)
+
+    def _delegate_chooser(self, expr, fr: DynFrame):
+        call = expr.value
+        if not (isinstance(call, ast.Call) and isinstance(call.func, ast.Attribute)
+                and not call.keywords):
+            return None
+        key = ('call', id(call), fr.frame.key())
+        found = self._resolve_cache.get(key)
+        if found is None:
+            found = self.te.resolve_callees(call, fr.frame)
+            self._resolve_cache[key] = found
+        callees, externals = found
+        if len(callees) != 1 or externals or callees[0].fn.kind != 'sync':
+            return None
+        saved = self.helpers
+        self.helpers = True  # also inside summaries: the choice decides what suspends
+        try:
+            if not self._is_helper(call, callees[0], fr):
+                return None
+        finally:
+            self.helpers = saved
+        return call, callees[0]
 
     def _suspend_expr(self, node, target, how, sts, fr, raised):
         callees, base, user, plain = self.resolve_awaitable(node, target, fr, how)
